@@ -2,6 +2,7 @@
 from engine import rule
 from mir import private_helper as mir_private_helper
 import fam
+import diag
 import sem
 from sem import labels, has, contains
 from mir import fmt, canon, is_const, atomic_method, ATOMIC_READ_METHODS, ATOMIC_WRITE_METHODS, is_state_read
@@ -602,7 +603,7 @@ def g7(ctx):
                 if rv['k'] == 'discr' and 'KanalWaker' in rv['p'].get('ty', ''):
                     ctx.oblige(1)
                     ctx.instance('%s reads waker kind' % key)
-                    if not fam.allowed_for(ctx, key, readers_ok):
+                    if not all(o in readers_ok or diag.free_observer(ctx.facts, o) for o in fam.owners(ctx, key)):
                         ctx.violate(key, None, 'waker kind inspected outside wake/wait/will_wake: a peer must not need to know the other side\'s flavour', at=s.get('at'), sig='kind-reader')
                 lp = s['lhs']['p']
                 if lp and isinstance(lp[-1], dict) and lp[-1].get('f') == 'waker' and 'KanalWaker' in s['lhs'].get('ty', ''):
